@@ -412,6 +412,28 @@ def rule_e(ctx, cr):
                           "compared as %s" % want,
                           "%s of %s and %s compares as %s (expected both operands widened to %s)"
                           % (name, L, R, sorted(got), want))
+    # one comparison operator per comparator, in every cell (sibling agreement across the 9 cells)
+    import collections
+    want_ops = {"less_bool": {"Lt": 9}, "less_equal_bool": {"Le": 9},
+                "equal_bool": {"Eq": 1, "Le": 8}}
+    str_cmp = {"less_bool": "PartialOrd>::lt", "less_equal_bool": "PartialOrd>::le",
+               "equal_bool": "PartialEq>::eq"}
+    for name, want in want_ops.items():
+        f = cr.need_fn("mach::operation::Operation::" + name)
+        got = collections.Counter(st["rv"]["op"] for b, i, st in f.assigns()
+                                  if st["rv"]["k"] == "binop"
+                                  and st["rv"]["op"] in ("Lt", "Le", "Gt", "Ge", "Eq", "Ne"))
+        sc = [c.name for c in f.calls() if "PartialOrd>::" in c.name or "PartialEq>::" in c.name]
+        ok = dict(got) == want and len(sc) == 1 and sc[0].endswith(str_cmp[name])
+        if name == "equal_bool":
+            eps = [f.describe(st["rv"]["r"]) for b, i, st in f.assigns()
+                   if st["rv"]["k"] == "binop" and st["rv"]["op"] == "Le"]
+            ok = ok and all(re.match(r"^const:(1\.19209\d*e-07|2\.22044\d*e-16)$", e) for e in eps)
+        ctx.check(ok, "C02.e", "%s/one-operator-in-every-cell" % name, f.span,
+                  "every numeric cell compares with %s, strings with %s" % (sorted(want), str_cmp[name]),
+                  "%s compares with %s (strings: %s) - expected %s in all nine numeric cells: for "
+                  "one pair of operand types the relation is another one (e.g. `<=` behaving as "
+                  "`<` for Integer against Double)" % (name, dict(got), sc, want))
     # integer-only operators
     for name, nargs in (("divint", 2), ("remainder", 2), ("and", 2), ("or", 2), ("xor", 2),
                         ("imp", 2), ("eqv", 2), ("not", 1)):
